@@ -5,6 +5,7 @@ spec = {
   'cfg': {TransferConfig kwargs},
   'chooser': {'kind': 'random'|'pct'|'first'|'replay', 'seed': n, 'choices': [...]},
   's3_fault': {'idx': request index, 'when': 'before'|'after'} | None,
+  'shared_extra_args': {..} one caller-owned dict handed to EVERY transfer | transfers[i]['extra_args']: {..},
   'get_fault': {'range_idx': i, 'attempts': n, 'after': k bytes, 'exc': 'timeout'|'fatal'|'oserror'} | None,
   'fs_fault': {'op': 'open'|'write'|'close'|'rename', 'nth': i} | None,
   'read_fault': {'nth': i} | None,                 (source stream read raises)
@@ -148,6 +149,18 @@ def run(spec, keep_tmp=False, sample=None):
                 ('submission', ex[1], cfg.max_submission_queue_size),
                 ('io', ex[2], cfg.max_io_queue_size)]
 
+        shared_extra = dict(spec['shared_extra_args']) if spec.get('shared_extra_args') is not None else None
+        run_.shared_extra = (shared_extra, dict(shared_extra) if shared_extra is not None else None)
+
+        def xa(ts):
+            """extra_args of one transfer: its own dict, or THE SAME caller-owned dict for every
+            transfer of the run (spec['shared_extra_args']) -- the caller may reuse its dict."""
+            if ts.get('extra_args') is not None:
+                return {'extra_args': dict(ts['extra_args'])}
+            if shared_extra is not None:
+                return {'extra_args': shared_extra}
+            return {}
+
         def submit(i, ts):
             label = f't{i}'
             data = payload(ts['size'], i)
@@ -175,7 +188,7 @@ def run(spec, keep_tmp=False, sample=None):
                         src = FaultyReader(src, nth, False)
                 if src_kind != 'path' and (src_kind == 'nonseekable' or ts['size'] >= env.config.multipart_threshold):
                     src = CountingReader(src, run_.stream_bytes_read)
-                f = m.upload(src, 'b', f'k{i}', subscribers=subs)
+                f = m.upload(src, 'b', f'k{i}', subscribers=subs, **xa(ts))
                 run_.expect[label] = ('object', ('b', f'k{i}'), data)
             elif kind == 'download':
                 client.objects[('b', f'k{i}')] = data
@@ -190,15 +203,15 @@ def run(spec, keep_tmp=False, sample=None):
                 else:
                     dst = fakes3.NonSeekableWriter()
                 run_.dests[label] = (dst_kind, dst)
-                f = m.download('b', f'k{i}', dst, subscribers=subs)
+                f = m.download('b', f'k{i}', dst, subscribers=subs, **xa(ts))
                 run_.expect[label] = ('dest', dst_kind, data)
             elif kind == 'copy':
                 client.objects[('sb', f'sk{i}')] = data
-                f = m.copy({'Bucket': 'sb', 'Key': f'sk{i}'}, 'b', f'k{i}', subscribers=subs)
+                f = m.copy({'Bucket': 'sb', 'Key': f'sk{i}'}, 'b', f'k{i}', subscribers=subs, **xa(ts))
                 run_.expect[label] = ('object', ('b', f'k{i}'), data)
             else:
                 client.objects[('b', f'k{i}')] = data
-                f = m.delete('b', f'k{i}', subscribers=subs)
+                f = m.delete('b', f'k{i}', subscribers=subs, **xa(ts))
                 run_.expect[label] = ('deleted', ('b', f'k{i}'), None)
             env.futures[label] = f
             env.I.log('user_submitted', label=label, t=f.meta.transfer_id, tkind=kind)
@@ -299,13 +312,14 @@ def _run(spec, scenario, cfgkw, fs_fault, cancel_at, cancel_how, keep_tmp, sampl
         finally:
             f.__defaults__ = saved
     scen.PROGRESS_YIELD[0] = bool(spec.get('progress_yield'))
+    scen.QUEUED_YIELD[0] = bool(spec.get('queued_yield'))
     with scaled_adjuster(utils, 1, 1000, 1000), scaled_aggregator(spec.get('agg_threshold')):
         r = scen.run_scenario(scenario, chooser=make_chooser(spec.get('chooser')), config_kwargs=cfgkw,
                               fs_fault=fs_fault, cancel_at=cancel_at,
                               cancel_how=cancel_how or 'future', keep_tmp=keep_tmp,
                               sample_fs=sample_fs if sample else None,
                               max_steps=spec.get('max_steps', 60000), collect=collect_dests,
-                              nonthreaded=bool(spec.get('nonthreaded')))
+                              nonthreaded=bool(spec.get('nonthreaded')), checksum=spec.get('checksum', 'when_required'))
     r.spec = spec
     return r
 
